@@ -347,6 +347,8 @@ class AbstractNDArray(ABC):
             self._array = npw.where(key, value, self._array)
         else:
             self._array[key] = value
+        for name in cached_property_names(type(self)):
+            self.__dict__.pop(name, None)
 
     def __repr__(self):
         return repr(self._array).replace(
